@@ -106,6 +106,13 @@ func Leaves(level int) []Leaf {
 	add("array-enum", "array", J{"type": "array", "items": J{"enum": A{"r", "g"}}}, nil, true)
 	add("object", "object", J{"type": "object", "properties": J{"k": J{"type": "string"}, "n": J{"type": "integer", "minimum": 1}}, "required": A{"k"}}, nil, true)
 	add("object-allreq-default", "object", J{"type": "object", "properties": J{"k": J{"type": "string"}}, "required": A{"k"}}, J{"k": "v"}, true)
+	// a wide object: many members, every validator family at once (count / order thresholds in the generator bite here)
+	add("object-wide", "object", J{"type": "object", "properties": J{
+		"s": J{"type": "string", "minLength": 1, "maxLength": 8, "pattern": "^[a-z]"}, "n": J{"type": "integer", "minimum": 1, "maximum": 9, "multipleOf": 1},
+		"f": J{"type": "number", "exclusiveMinimum": 0, "multipleOf": 0.5}, "a": J{"type": "array", "minItems": 1, "maxItems": 3, "items": J{"type": "string"}},
+		"e": J{"type": "string", "enum": A{"x", "y"}}, "o": J{"type": "object", "properties": J{"k": J{"type": "string"}}, "required": A{"k"}},
+		"ns": J{"type": A{"string", "null"}, "minLength": 2}, "d": J{"type": "integer", "default": 4, "minimum": 2}, "b": J{"type": "boolean"}, "z": J{"type": "null"}},
+		"required": A{"s", "n", "a", "o"}}, nil, true)
 	add("object-empty", "map", J{"type": "object"}, nil, true)
 	add("map-str", "map", J{"type": "object", "additionalProperties": J{"type": "string"}}, nil, true)
 	add("map-obj", "map", J{"type": "object", "additionalProperties": J{"type": "object", "properties": J{"k": J{"type": "integer"}}}}, nil, true)
